@@ -36,6 +36,10 @@ func (m *TN93Model) Distance(seq1 []uint8, seq2 []uint8, weights []float64) (flo
 	var b1, b2, b3 float64
 
 	trS, trV, p1, p2, total := countMutations(seq1, seq2, m.selectedSites, weights)
+	// No difference between the sequences
+	if total > 0 && trS == 0 && trV == 0 {
+		return 0, nil
+	}
 	trS, trV, p1, p2 = trS/total, trV/total, p1/total, p2/total
 
 	piy := m.pi[1] + m.pi[3]
@@ -47,6 +51,11 @@ func (m *TN93Model) Distance(seq1 []uint8, seq2 []uint8, weights []float64) (flo
 	e1 := 1 - trV/(2*piy*pir)
 	e2 := 1 - trV/(2*pir) - pir*p1/(2*papg)
 	e3 := 1 - trV/(2*piy) - piy*p2/(2*pcpt)
+
+	// Saturated sequences or no comparable site: the distance is not defined
+	if !(e1 > 0) || !(e2 > 0) || !(e3 > 0) {
+		return math.NaN(), nil
+	}
 
 	if m.gamma {
 		b1 = (piy/pir*m.alpha*(1.-math.Pow(e1, -1./m.alpha)) - 1./pir*m.alpha*(1.-math.Pow(e2, -1./m.alpha)))
